@@ -60,6 +60,7 @@ type FuncContract struct {
 	Sets     []OldDecl // ghost assignments at exit: NAME := expr over the final state
 	Labels   []LabelDecl
 	Preserves []*Expr // with `modifies *`: these locations keep their values
+	Stable    []*Expr // caller-owned locations: not changed by other threads while this function waits for a lock
 }
 
 // LabelDecl names the state right after the (first) call of Callee: `label P after call <callee>`.
@@ -287,6 +288,14 @@ func (C *Contracts) loadContractFile(path string, defaultPkg string) error {
 					return fmt.Errorf("%s: %v", where(L.line), err)
 				}
 				cur.Preserves = append(cur.Preserves, e)
+			}
+		case "stable":
+			for _, m := range splitTop(rest) {
+				e, err := parseExpr(m)
+				if err != nil {
+					return fmt.Errorf("%s: %v", where(L.line), err)
+				}
+				cur.Stable = append(cur.Stable, e)
 			}
 		case "old":
 			// old NAME := expr  (named entry-state snapshot value usable in ensures / invariants)
